@@ -47,13 +47,18 @@ def parseQ (s : String) : Option Query :=
       | _ => none)
     let mask ← mask.toNat?
     let id ← id.toNat?
+    let (qt, qc) ← (match qt.splitOn "." with
+      | [t] => some (t, "0")
+      | [t, c] => some (t, c)
+      | _ => none)
+    let qc ← qc.toNat?
     let op ← op.toNat?
     let qt ← qt.toNat?
     let ql ← ql.toNat?
     let (o, same) ← parseOpt opt
     if same then none else
     some { id, opcode := op, rd := fl.contains 'r', ad := fl.contains 'a', cd := fl.contains 'c',
-           question := { name := id + 65536 * mask, qtype := qt, qlen := ql }, opt := o }
+           question := { name := id + 65536 * mask + 4294967296 * qc, qtype := qt, qlen := ql }, opt := o }
   | _ => none
 
 def parseKind (s : String) : Option DKind :=
@@ -318,6 +323,13 @@ def step (st : State) (w : List String) : State × String :=
           | some r => (st, showReplyWith true q (some r)))
        | _, _ => (st, "bad-op"))
     | _, _, _, _, _ => (st, "bad-op")
+  | ["edns", "as112", path, proto, q] =>
+    match parseProto proto, parseQ q with
+    | some p, some q =>
+      let wire := path == "w" && wireEligible q
+      let wb := wire && (q.opt.isNone || (q.opt.map (·.version)) == some 0)
+      (st, showReply q (serveGuarded (msgLen true) (msgLen false) consts st.cfg p q wb (fun q' => .done (some (as112Reply q')))))
+    | _, _ => (st, "bad-op")
   | "edns" :: "tomsg" :: q :: r :: rest =>
     match parseQ q, parseR r with
     | some q, some u =>
